@@ -16,7 +16,8 @@ def c21(tier, seed):
     c.extra['faults_injected'] = c.stats.get('faults', 0)
     c.rule = ('one initiator and one acceptor Session in one process (pm_thread and pm_pipeline alternating), real reader/writer threads, loopback '
               'TCP, FilePersisters; schedules of 3..25 steps: 1..4 application sends on either side, or a fault - abrupt shutdown of the socket, '
-              'destruction of the initiator\'s or the acceptor\'s objects - optionally hitting traffic in flight and followed by 0..3 sends into '
+              'destruction of the initiator\'s or the acceptor\'s objects, or a partition (the two sessions talk through a forwarding thread which '
+              'from one instant on swallows everything in both directions while both sides go on sending successfully) - optionally hitting traffic in flight and followed by 0..3 sends into '
               'the dead connection, after which both sides are rebuilt from their files and log on again; in 40% of the reconnects the schedule '
               'goes on as soon as both logons are complete, i.e. WHILE the two sides are still asking each other for resends (marked ~ in the '
               'trace); a send counts once the library took responsibility for it (pm_thread: send() returned true; pm_pipeline: the writer '
